@@ -285,6 +285,9 @@ class HTTP(BaseComponent):
                 # the major HTTP version differs: the message is rejected,
                 # whatever else arrives for it must not find it pending
                 del self._buffers[sock]
+                # (answer in the protocol this server speaks, not the one it
+                # has just refused)
+                res.protocol = 'HTTP/{:d}.{:d}'.format(*sp)
                 return self.fire(httperror(req, res, 505))
 
             self._clients[sock] = (req, res)
